@@ -313,17 +313,26 @@ def testbench(repo: Repo, R, noret):
             f"the testbench interface is checked (and failure raises) before the SimInput is built: {bool(before)}; SimInput(pkg=self.pkg, top=qualname(self.sim.tb)): {kw}",
             why="a module with several or bus ports is simulated as a testbench; or top names another module")
     ft = repo.func(F_SIMPROTO, "to_proto")
-    ok = False
-    for c1, b1 in shared.calls_matching(ft.node, "module_to_proto([$I.tb for $I in $L])"):
-        for c2 in [x for x in ast.walk(ft.node) if isinstance(x, ast.ListComp)]:
-            b2 = pat.match("[SimProtoExporter(sim=$S, pkg=$P).export() for $S in $L2]", shared.prov(ft.node, c2, depth=2))
-            if b2 is None:
+    ok = None
+    for c2 in [x for x in ast.walk(ft.node) if isinstance(x, ast.ListComp)]:
+        b2 = pat.match("[SimProtoExporter(sim=$S, pkg=$P).export() for $S in $L2]", c2)
+        if b2 is None:
+            continue
+        pc = shared.path_conditions(ft.node, c2)
+        # the sequence of Sims on each path: the argument itself, or the one-element list of it
+        l_alts = [(ast.unparse(v), c) for v, c in shared.alternatives(ft.node, b2["L2"], pc, at=c2)]
+        here = bool(l_alts) and {t for t, _c in l_alts} <= {"inp", "[inp]"}
+        # the package every Sim is exported against: on each path, the co-export of the testbenches of that same sequence
+        for pv, c1 in shared.alternatives(ft.node, b2["P"], pc, at=c2):
+            b1 = pat.match("module_to_proto([$I.tb for $I in $L])", pv)
+            if b1 is None:
+                here = False
                 continue
-            L1, L2 = ast.unparse(b1["L"]), ast.unparse(b2["L2"])
-            # both run over the same sequence of Sims: the argument itself, or the one-element list of it
-            lalts = {ast.unparse(v) for v, _c in shared.alternatives(ft.node, b1["L"], [])} if isinstance(b1["L"], ast.Name) else {L1}
-            pk = shared.prov_text(ft.node, b2["P"], depth=1)
-            ok = ok or (L1 == L2 and lalts <= {"inp", "[inp]"} and "module_to_proto(" in pk)
+            for lt, cl in l_alts:
+                if not shared._contradict(c1, cl) and lt != ast.unparse(b1["L"]):
+                    here = False
+        ok = here if ok is None else (ok and here)
+    ok = bool(ok)
     R.check(ok, rule, key_of(ft), ft.site, f"all testbenches are co-exported into one package, then every Sim is exported against it, in order: {ok}", why="a testbench is exported twice (or not at all) when several Sims are exported together")
     fi = repo.func(F_SIMDATA, "is_tb")
     a = fi.node.args.args[0].arg
